@@ -40,8 +40,9 @@ RULE = ("Random: 1-7 hits on one or two proteins from a pool of 2-5 profiles (le
         "known finding are counted in excluded_known, not in the class counters.")
 ASSUMPTIONS = [
     "hits have start < end and every profile has a length (the callers build both from HMMER/BLAST output)",
-    "refinement margin = 20% of the longer of the two profiles (docstring of _remove_overlapping); two hits "
-    "'overlap' for the drop clause as soon as they share one residue (lenient reading)",
+    "refinement margin = 20% of the longer of the two profiles (docstring of _remove_overlapping); kept hits are "
+    "judged on shared residues, a drop is explained by a kept hit (or a fragment merged into it) when the later of "
+    "the two starts more than the margin before the earlier one ends (equal to shared residues unless nested)",
     "'close enough to be one domain' = every merged fragment ends less than 1.5 profile lengths after the first "
     "one starts (the rule in _merge_domain_list/_merge_immediate_neigbours); the oracle only asks for the "
     "existence of such a set of same-profile inputs",
@@ -355,7 +356,7 @@ def _judge_refine(inputs: list, output: list, lengths: dict, mode: str, label: s
                 "nested_same_profile_pairs": nested_pairs[:6]}))
     for i, one in enumerate(output):
         for two in output[i + 1:]:
-            if _beyond_margin(one, two, lengths):
+            if one != two and _beyond_margin(one, two, lengths):   # a repeated hit is reported on its own
                 between = [x for x in inputs if not _represented(x, [one, two])
                            and min(one[1], two[1]) <= x[1] <= max(one[1], two[1])]
                 failures.append(("refine_overlap_beyond_margin", {
